@@ -19,7 +19,7 @@ func (P) Rule() string {
 }
 
 func (P) Gen(r *core.Rand, tier string, emit func([]string)) {
-	n := 150
+	n := 500
 	if tier == "thorough" {
 		n = 3000
 	}
